@@ -162,6 +162,10 @@ sig_source_stop_sink(const struct video_source_s* source)
     // This is a pretty hacky way of signaling a video stream to stop
     // the sink thread.
     struct video_s* self = containerof(source, struct video_s, source);
+    // The filter writes its output into the sink's queue. Let it finish
+    // (it has just been told to stop) before the sink does its final flush,
+    // otherwise the last averaged frames are left behind in the queue.
+    thread_join(&self->filter.thread);
     self->sink.is_stopping = 1;
 }
 
